@@ -27,27 +27,29 @@ kinds follow the value through the body: `assert` asserts on the variable the re
     call          x, err := <receiver>.MakeRequest…(…)      -- the only request call so far
     ifErr         if err != nil { return <zero>, errors.Wrap(err, …) }     -- the call's err; nothing else
     assert        resp, ok := x.(T)                         -- x of the call
-    ifNotOkPanic  if !ok { panic(…) }                       -- ok of the assertion
+    ifNotOkErr    if !ok { return <zero>, errors.Errorf("…%T", x) }   -- ok of the assertion, x of the call; nothing else
+    ifNotOkPanic  if !ok { panic(…) }                       -- ok of the assertion (the body tlgen emitted before D32)
     ret           return resp, nil                          -- resp of the assertion
     retAssert     return x.(T), nil                         -- x of the call
     other kind    any other statement (early return, cache look-up, loop, assignment, second call …) -/
 inductive BodyStmt where
-  | call | ifErr | assert | ifNotOkPanic | ret | retAssert
+  | call | ifErr | assert | ifNotOkErr | ifNotOkPanic | ret | retAssert
   | other (kind : String)
   deriving Repr, DecidableEq, Inhabited
 
 def BodyStmt.show : BodyStmt → String
-  | .call => "call" | .ifErr => "iferr" | .assert => "assert" | .ifNotOkPanic => "ifnotok-panic"
+  | .call => "call" | .ifErr => "iferr" | .assert => "assert" | .ifNotOkErr => "ifnotok-error" | .ifNotOkPanic => "ifnotok-panic"
   | .ret => "ret" | .retAssert => "ret-assert" | .other k => "other:" ++ k
 
 /-- **the model of "sends the request and returns its answer"** for a generated method: the body is
 exactly — send the request; on a transport/RPC error return it wrapped; assert the answer to the result
-type; a wrong type is a panic; return the asserted answer. This is the one body `tlgen` emits (all 343
+type; an answer of another type is returned as an ERROR (until the repair of D32 it was a panic in the caller's
+goroutine: any server could end the process with a well-formed answer of the wrong type); return the asserted answer. This is the one body `tlgen` emits (all 343
 methods of the unchanged tree). No statement in front of the request (a cached copy answering instead
 of the server), none between the answer and the `return` (the answer replaced or post-processed), no
 second request, no branch. -/
 def generatedSkeletons : List (List BodyStmt) :=
-  [[.call, .ifErr, .assert, .ifNotOkPanic, .ret]]
+  [[.call, .ifErr, .assert, .ifNotOkErr, .ret]]
 
 /-- the same for the hand-written wrappers of `methods_special.go` (`InitConnection`, `InvokeWithLayer`,
 `InvokeWithTakeout`): send; on error return it wrapped; return the answer asserted to `tl.Object`. -/
